@@ -1590,11 +1590,11 @@ theorem convert_correct_if (S : Sem V) (hConst : ∀ l, ∃ c, constOf S l = som
     (hnames : (f.params.map Param.name).Nodup) (h : convert f = .ok g)
     {fuel : Nat} {args vs : List V} (he : evalFunc S fuel f args = some vs) :
     evalGraph S fuel g args = some vs := by
-  unfold convert at h
+  obtain ⟨h, _, d0, ha0⟩ := convert_core h
+  unfold convertCore at h
   cases ha : assignedBlock f.body with
-  | none => rw [ha] at h; cases h
+  | none => rw [ha] at ha0; cases ha0
   | some d =>
-    rw [ha] at h
     simp only at h
     cases hc : convTop (tensorParams f.params) f.retCount [paramFrame f.params] f.body []
         { used := (tensorParams f.params).reverse, next := 0, castable := [] } with
